@@ -80,7 +80,7 @@ def Storage_SetPersistent : List String := ["lockKey", "setPersistent"]
 def Storage_SetRuntime : List String := ["lockKey", "setRuntime"]
 def Storage_get : List String := ["getCategory", "getCacheForKey", "cache.Get", "getSharedPersistent", "cache.Get", "lockKey", "persistent.Get", "cache.Set"]
 def Storage_getList : List String := ["get"]
-def Storage_getSharedPersistent : List String := ["cache.Get", "persistent.Get", "lockKey", "cache.Get", "cache.Set"]
+def Storage_getSharedPersistent : List String := ["cache.Get", "lockKey", "persistent.Get", "cache.Set"]
 def Storage_setLocked : List String := ["getCategory", "setPersistent", "setShared", "setSharedPersistent", "setRuntime"]
 def Storage_setPersistent : List String := ["persistent.Set", "cache.Set"]
 def Storage_setRuntime : List String := ["cache.Set"]
